@@ -26,7 +26,7 @@ from easynetwork.exceptions import DatagramProtocolParseError, DeserializeError,
 from easynetwork.lowlevel._stream import BufferedStreamDataConsumer, StreamDataConsumer
 from easynetwork.protocol import DatagramProtocol
 
-GENERIC = ("filetoy", "filepeek", "zlib", "bz2")
+GENERIC = sers.FILE_TOYS + ("zlib", "bz2")
 LAW = {"tables": 0, "entries": 0, "violations": 0, "samples": 0, "skipped_too_many_starts": 0}
 _aux: dict[str, Any] = {}
 
@@ -74,7 +74,7 @@ class _Loader:
         return r
 
     def _load(self, data: bytes) -> tuple:
-        if self.kind in ("filetoy", "filepeek"):
+        if self.kind in sers.FILE_TOYS:
             f = io.BytesIO(data)
             try:
                 self.ser.load_from_file(f)
@@ -251,7 +251,7 @@ def _stream_of(case: dict) -> tuple[list[bytes], bytes]:
     return frames, b"".join(frames)
 
 
-def _deliver(fn, arg, lines: list[str], budget: list[int]) -> bool:
+def _deliver(fn, arg, lines: list[str], budget: list[int], keep: "sd.Retain | None" = None) -> bool:
     while True:
         try:
             p = fn(arg)
@@ -263,7 +263,10 @@ def _deliver(fn, arg, lines: list[str], budget: list[int]) -> bool:
             lines.append(f"escape {type(e).__name__}")
             return False
         else:
-            lines.append(sd.pkt_line(p))
+            if keep is not None:
+                keep.add(p, lines)
+            else:
+                lines.append(sd.pkt_line(p))
         budget[0] -= 1
         if budget[0] < 0:
             lines.append("loop")
@@ -272,16 +275,26 @@ def _deliver(fn, arg, lines: list[str], budget: list[int]) -> bool:
 
 
 def drive(spec: dict, path: str, stream: bytes, cuts: list[int], hint: int) -> tuple[list[str], list[bytes]]:
-    proto = sd.make_protocol(spec, path)
     lines: list[str] = []
     chunks: list[bytes] = []
+    keep = sd.Retain()
+    try:
+        _drive(spec, path, stream, cuts, hint, lines, chunks, keep)
+    finally:
+        keep.finish(lines)
+    return lines, chunks
+
+
+def _drive(spec: dict, path: str, stream: bytes, cuts: list[int], hint: int, lines: list[str], chunks: list[bytes],
+           keep: "sd.Retain") -> tuple[list[str], list[bytes]]:
+    proto = sd.make_protocol(spec, path)
     budget = [len(stream) + 4]
     if path == "copy":
         consumer = StreamDataConsumer(proto)
         for ch in sd.cut(stream, cuts):
             lines.append(f"read {len(ch)}")
             chunks.append(ch)
-            if not _deliver(consumer.next, ch, lines, budget):
+            if not _deliver(consumer.next, ch, lines, budget, keep):
                 return lines, chunks
         lines.append("buf " + core.hexs(bytes(consumer.get_buffer())))
         return lines, chunks
@@ -303,9 +316,126 @@ def drive(spec: dict, path: str, stream: bytes, cuts: list[int], hint: int) -> t
         chunks.append(stream[i:i + n])
         lines.append(f"read {n}")
         i += n
-        if not _deliver(consumer.next, n, lines, budget):
+        if not _deliver(consumer.next, n, lines, budget, keep):
             return lines, chunks
     return lines, chunks
+
+
+def drive_direct(spec: dict, path: str, stream: bytes, cuts: list[int], hint: int) -> tuple[list[str], list[bytes]]:
+    """mode `direct`: the real protocol object's generators (`build_packet_from_chunks` / `build_packet_from_buffer`) driven
+    by hand, the way the consumers drive them, so that the REMAINDER handed back with every packet and carried by every
+    parse error can be looked at the moment it is produced (behind the real consumers it is only visible through what is
+    delivered next, and on the buffered path the consumer re-uses the memory it points into).  After each item a line
+    `rem <fed> <hex>`: <fed> = number of bytes this generator had been given, <hex> = the remainder."""
+    proto = sd.make_protocol(spec, path)
+    lines: list[str] = []
+    chunks: list[bytes] = []
+    keep = sd.Retain()
+    budget = [len(stream) + 4]
+
+    def item(fn, fed: int) -> bytes | None:
+        """run one generator step; None = it wants more data"""
+        try:
+            fn()
+        except StopIteration as e:
+            if e.value is None:
+                lines.append("escape StopIteration(None)")
+                raise _Stop from None
+            p, rem = e.value
+            rem = bytes(rem)
+            keep.add(p, lines)
+        except StreamProtocolParseError as e:
+            rem = bytes(e.remaining_data)
+            lines.append(sd.err_line(e))
+        except Exception as e:  # noqa: BLE001
+            lines.append(f"escape {type(e).__name__}")
+            raise _Stop from None
+        else:
+            return None
+        lines.append(f"rem {fed} {core.hexs(rem)}")
+        budget[0] -= 1
+        if budget[0] < 0:
+            lines.append("loop")
+            raise _Stop
+        return rem
+
+    try:
+        if path == "copy":
+            buf = b""
+            gen, fed = None, 0
+            for ch in sd.cut(stream, cuts):
+                lines.append(f"read {len(ch)}")
+                chunks.append(ch)
+                arg: bytes | None = ch
+                while True:
+                    if not arg:
+                        if not buf:
+                            break
+                        arg = buf
+                    elif buf:
+                        arg = buf + arg
+                    buf = b""
+                    if gen is None:
+                        gen, fed = proto.build_packet_from_chunks(), 0
+                        next(gen)
+                    fed += len(arg)
+                    rem = item(lambda: gen.send(arg), fed)   # noqa: B023
+                    if rem is None:
+                        break
+                    gen, buf, arg = None, rem, None
+            lines.append("buf " + core.hexs(buf))
+        else:
+            buffer = proto.create_buffer(hint)
+            view = memoryview(buffer).cast("B")
+            state = {"gen": None, "start": 0, "fed": 0}
+
+            def ensure() -> None:
+                if state["gen"] is None:
+                    state["gen"] = proto.build_packet_from_buffer(buffer)
+                    state["start"] = next(state["gen"]) or 0
+                    state["fed"] = 0
+
+            def step(nb: int) -> None:
+                state["start"] = state["gen"].send(nb) or 0
+
+            i, k, already = 0, 0, 0
+            fills = [c for c in cuts if c > 0] or [1 << 30]
+            while i < len(stream):
+                ensure()
+                w = view[state["start"]:][already:]
+                room = len(w)
+                if room == 0:
+                    lines.append("crashed")
+                    break
+                lines.append(f"room {room}")
+                n = max(1, min(fills[k % len(fills)], room, len(stream) - i))
+                k += 1
+                w[:n] = stream[i:i + n]
+                chunks.append(stream[i:i + n])
+                lines.append(f"read {n}")
+                i += n
+                nb, already = n + already, 0
+                while nb:
+                    state["fed"] += nb
+                    rem = item(lambda: step(nb), state["fed"])   # noqa: B023
+                    if rem is None:
+                        break
+                    state["gen"] = None
+                    nb = 0
+                    if rem:
+                        # what BufferedStreamDataConsumer does with a remainder: re-inject it at the new generator's start
+                        ensure()
+                        view[state["start"]:][:len(rem)] = rem
+                        nb = len(rem)
+    except _Stop:
+        pass
+    finally:
+        keep.finish(lines)
+    return lines, chunks
+
+
+class _Stop(Exception):
+    pass
 
 
 def _oneshot_line(spec: dict, d: bytes) -> str:
@@ -334,7 +464,10 @@ def run_real(case: dict) -> list[str]:
     if case["mode"] == "oneshot":
         return [_oneshot_line(spec, b"".join(_frame_bytes(spec, f) for f in dg)) for dg in case["datagrams"]]
     frames, stream = _stream_of(case)
-    lines, chunks = drive(spec, case["path"], stream, case["cuts"], case["hint"])
+    if case["mode"] == "direct":
+        lines, chunks = drive_direct(spec, case["path"], stream, case["cuts"], case["hint"])
+    else:
+        lines, chunks = drive(spec, case["path"], stream, case["cuts"], case["hint"])
     _aux[core.case_digest(case)] = {"chunks": chunks, "frames": [len(f) for f in frames]}
     return lines
 
@@ -369,8 +502,10 @@ def model_input(case: dict, real: list[str]):
             r = ld(d)
             ops.append(f"dgram {core.hexs(d)} " + (r[0] if len(r) == 1 else f"{r[0]}:{r[1]}"))
         return ("gdg comp" if comp else "gdg file"), ops
+    if case["mode"] == "direct":
+        return None     # the protocol generators driven by hand: the consumer models do not apply, oracle only
     aux = _aux.get(core.case_digest(case))
-    if aux is None or any(ln.startswith(("escape", "loop", "harness-exc")) for ln in real):
+    if aux is None or any(ln.startswith(("escape", "loop", "harness-exc", "mutated")) for ln in real):
         return None
     h = sers.model_head(spec, case["path"], case["hint"], chunks=aux["chunks"], real=real)
     if h is None:
@@ -451,14 +586,39 @@ def oracle(case: dict, real: list[str]) -> str | None:
         if len(real) != len(case["datagrams"]):
             return "not exactly one result per datagram"
         return None
+    why = sd.mutated(real)
+    if why:
+        return why
     items = [ln for ln in real if ln.startswith(("pkt ", "err "))]
     lim = sers.limit_of(case["spec"])
     exp = _expected_items(case)
-    if prop in ("C01", "C02", "C07") and exp is not None and _safe(case, real):
+    # C06 ("... or reports a parse error CARRYING THE UNREAD REMAINDER"): behind the real consumers the remainder is what the
+    # next items are made of, so for a stream of well-delimited frames the statement means: the valid frames behind a
+    # malformed one are still delivered, one error per malformed frame.  (A size error inside the safe zone is C07's and
+    # C02's business, not C06's.)
+    frame_by_frame = prop in ("C01", "C02", "C07") or (prop == "C06" and "err limit" not in items)
+    if frame_by_frame and exp is not None and _safe(case, real):
         # C01/C02: delivered == frame-by-frame decoding (one item per frame, bad frame = one parse error, later frames
         # intact), nothing left over; C07: no frame of the safe zone is rejected for its size
         if "err limit" in items:
             return f"size error although the accumulated bytes (frame in progress + read) never exceeded limit {lim}: {items[:8]}"
+        if case["mode"] == "direct":
+            # the remainder itself: generator number i was started on a frame boundary and given `fed` bytes, frame i is
+            # known by construction, so what it hands back must be exactly the bytes it was given beyond that frame
+            aux = _aux.get(core.case_digest(case))
+            stream = b"".join(aux["chunks"]) if aux else b""
+            rems = [ln.split() for ln in real if ln.startswith("rem ")]
+            pos = 0
+            for i, (n, r) in enumerate(zip(aux["frames"] if aux else [], rems)):
+                if i >= len(exp) or items[i] != exp[i]:
+                    break
+                fed = int(r[1])
+                want = stream[pos + n:pos + fed]
+                got = b"" if r[2] == "-" else bytes.fromhex(r[2])
+                if got != want:
+                    return (f"item #{i} ({items[i]}): the remainder carried is {got.hex() or '-'} but the unread bytes after "
+                            f"that frame are {want.hex() or '-'} ({fed} bytes given, frame of {n})")
+                pos += n
         if items != exp:
             return f"delivered {items[:8]} != frame-by-frame decoding {exp[:8]}"
         tail = [ln for ln in real if ln.startswith("buf ")]
@@ -596,12 +756,28 @@ def _cuts(rng, lens: list[int], maxread: int) -> list[int]:
     return [min(maxread, rng.choice([1, 1, 2, 3, 5, 8, 13, maxread])) for _ in range(rng.randint(1, 10))]
 
 
+def _toy_variant(rng, spec: dict) -> dict:
+    """`expected_load_error` combinations (narrow, Exception, tuples containing Exception / DeserializeError) x debug"""
+    e = rng.choice(sers.EXPECTED_KEYS)
+    if e != "toy":
+        spec["expected"] = e
+    if rng.random() < 0.3:
+        spec["debug"] = True
+    return spec
+
+
 def _gen_stream(rng, prop: str) -> dict:
-    k = rng.choice(["filetoy", "filepeek", "filepeek", "zlib", "bz2"] if prop != "C07" else ["filetoy", "filepeek"])
+    k = rng.choice(["filetoy", "filepeek", "filepeek", "fileahead", "zlib", "bz2"] if prop != "C07" else ["filetoy", "filepeek", "fileahead"])
     path = rng.choice(["copy", "buffered"])
     case: dict[str, Any] = {"kind": "generic", "prop": prop, "mode": "stream", "path": path}
+    if prop in ("C02", "C06") and rng.random() < 0.35:
+        case["mode"] = "direct"
     if k in ("zlib", "bz2"):
         spec = {"k": k, "inner": rng.choice(_INNERS), "level": rng.choice([None, 1, 9])}
+        if rng.random() < 0.3:
+            spec["debug"] = True
+        if rng.random() < 0.3:
+            spec["inner"] = {**spec["inner"], "debug": True}
         frames = []
         for _ in range(rng.randint(1, 4)):
             if prop in ("C02", "C06") and rng.random() < 0.3:
@@ -609,25 +785,25 @@ def _gen_stream(rng, prop: str) -> dict:
             else:
                 frames.append({"t": "pkt", "v": sers.enc_val(sers.gen_packet(rng, spec, 8))})
         frames.append({"t": "pkt", "v": sers.enc_val(sers.gen_packet(rng, spec, 4))})
-        if prop == "C06" and rng.random() < 0.6:
+        if prop == "C06" and case["mode"] != "direct" and rng.random() < 0.6:
             frames = _mutate(rng, spec, frames)
         lens = [len(_frame_bytes(spec, f)) for f in frames]
         hint = rng.choice([1, 2, 3, 7, 16, 64, 16384])
         case.update(spec=spec, frames=frames, hint=hint, cuts=_cuts(rng, lens, rng.choice([3, 9, 40, 200])))
         return case
     lim = rng.choice([4, 6, 8, 12, 16, 24, 32])
-    spec = {"k": k, "limit": lim}
+    spec = _toy_variant(rng, {"k": k, "limit": lim})
     maxread = rng.randint(1, max(1, lim // 2))
     hint = rng.choice([1, 2, 3, maxread, lim - 1, lim, lim + 5, 16384])
     hint = max(1, hint)
     frames: list[dict] = []
     unterminated = False
-    if prop in ("C01", "C02"):
+    if prop in ("C01", "C02") or (prop == "C06" and rng.random() < 0.5) or case["mode"] == "direct":
         # safe zone, pushed against its edge:  |frame| + largest read <= limit, often with equality
         hint = min(hint, maxread) if path == "buffered" else hint
         top = lim - maxread - 1            # payload length such that |frame| + maxread == limit
         for _ in range(rng.randint(1, 6)):
-            if prop == "C02" and rng.random() < 0.3:
+            if prop in ("C02", "C06") and rng.random() < 0.3:
                 frames.append(_toy_bad(rng))
             elif top < 0:
                 frames.append(_toy_bad(rng))
@@ -660,11 +836,54 @@ def _gen_stream(rng, prop: str) -> dict:
         elif prop == "C06" and rng.random() < 0.5:
             frames = _mutate(rng, spec, frames)
     lens = [len(_frame_bytes(spec, f)) for f in frames]
-    cuts = _cuts(rng, lens, maxread if prop in ("C01", "C02") else rng.choice([maxread, lim, lim + 3]))
+    cuts = _cuts(rng, lens, maxread if (prop in ("C01", "C02") or case["mode"] == "direct") else rng.choice([maxread, lim, lim + 3]))
     case.update(spec=spec, frames=frames, hint=hint, cuts=cuts)
     if unterminated:
         case["unterminated"] = True
     return case
+
+
+def _gen_stream_any(rng, prop: str) -> dict | None:
+    """streams described by construction for EVERY serializer kind (rich configuration space of sers.gen_spec: debug=True
+    variants, 3/4-byte separators, Base64 with long separators, packets that keep their deserialize() argument, composites,
+    file toys with wide expected_load_error): valid packets and well-delimited undecodable frames (sers.bad_frame), all
+    inside the safe zone of the limit, through the real consumers (mode stream) or the protocol generators (mode direct)"""
+    spec = sers.gen_spec(rng, limits=(64, 256, 65536), rich=True)
+    if prop == "C06" and spec["k"] not in ("stapled", "stapledbuf") and rng.random() < 0.5:
+        spec["debug"] = True
+    buffered_ok = sers.is_buffered(spec)
+    path = "buffered" if (buffered_ok and rng.random() < 0.5) else "copy"
+    lim = sers.limit_of(spec)
+    sep = sers.separator(spec)
+    maxlen = 10
+    if sep is not None:
+        maxlen = max(1, min(10, lim - len(sep) - 1 - (len(sep) if sers.keep_end(spec) else 0)))
+    frames: list[dict] = []
+    for _ in range(rng.randint(2, 6)):
+        r = rng.random()
+        if r < 0.3:
+            b = sers.bad_frame(rng, spec, extreme=rng.random() < 0.12)
+            if b is not None:
+                frames.append({"t": "raw", "hex": b.hex(), "as": "bad"})
+                continue
+        frames.append({"t": "pkt", "v": sers.enc_val(sers.gen_packet(rng, spec, maxlen))})
+    frames.append({"t": "pkt", "v": sers.enc_val(sers.gen_packet(rng, spec, min(4, maxlen)))})
+    lens = [len(_frame_bytes(spec, f)) for f in frames]
+    big = max(lens)
+    if lim is not None and big + 1 > lim:
+        return None
+    # safe zone: frame in progress + read <= limit
+    maxread = 4096 if lim is None else lim - big
+    if big > 3000:
+        maxread = max(512, min(maxread, 8192))      # long frames are read in realistic sizes
+        if lim is not None and big + maxread > lim:
+            return None
+        cuts = [rng.randint(512, maxread) for _ in range(3)]
+    else:
+        cuts = _cuts(rng, lens, min(maxread, rng.choice([3, 9, 40, 200])))
+    mode = "direct" if rng.random() < 0.4 else "stream"
+    return {"kind": "generic", "prop": prop, "mode": mode, "path": path, "spec": spec, "frames": frames,
+            "hint": rng.choice([1, 2, 3, 7, 16, 64, 16384]), "cuts": cuts}
 
 
 def _mutate(rng, spec: dict, frames: list[dict]) -> list[dict]:
@@ -687,15 +906,17 @@ def _mutate(rng, spec: dict, frames: list[dict]) -> list[dict]:
 
 
 def _gen_oneshot(rng) -> dict:
-    k = rng.choice(["filetoy", "filepeek", "zlib", "bz2"])
+    k = rng.choice(["filetoy", "filepeek", "fileahead", "zlib", "bz2"])
     if k in ("zlib", "bz2"):
         spec: dict[str, Any] = {"k": k, "inner": rng.choice(_INNERS), "level": rng.choice([None, 1, 9])}
+        if rng.random() < 0.3:
+            spec["debug"] = True
         def pkt() -> dict:
             return {"t": "pkt", "v": sers.enc_val(sers.gen_packet(rng, spec, 8))}
         def bad() -> dict:
             return _comp_bad(rng, spec)
     else:
-        spec = {"k": k, "limit": rng.choice([8, 64, 256])}
+        spec = _toy_variant(rng, {"k": k, "limit": rng.choice([8, 64, 256])})
         def pkt() -> dict:
             return _toy_pkt(rng.randint(0, 12), rng)
         def bad() -> dict:
@@ -724,7 +945,7 @@ def _gen_oneshot(rng) -> dict:
 def _gen_producer(rng) -> dict:
     k = rng.choice(["filetoy", "zlib", "bz2"])
     if k == "filetoy":
-        spec: dict[str, Any] = {"k": rng.choice(["filetoy", "filepeek", "fileempty"]), "limit": 64}
+        spec: dict[str, Any] = {"k": rng.choice(["filetoy", "filepeek", "fileahead", "fileempty"]), "limit": 64}
         pk = [sers.enc_val(bytes(rng.randrange(256) for _ in range(rng.choice([0, 0, 1, 5])))) for _ in range(rng.randint(1, 5))]
     else:
         spec = {"k": k, "inner": rng.choice(_INNERS), "level": rng.choice([None, 1, 9])}
@@ -768,7 +989,7 @@ def corpus(prop: str) -> list[dict]:
 
 
 def generate(prop: str, rng, tier: str, boost: int):
-    n = {"C01": 700, "C02": 700, "C05": 400, "C06": 200, "C07": 900}[prop] * (1 if tier == "quick" else 20) * boost
+    n = {"C01": 700, "C02": 700, "C05": 400, "C06": 300, "C07": 900}[prop] * (1 if tier == "quick" else 20) * boost
     for i in range(n):
         if prop == "C05":
             yield _gen_oneshot(rng)
@@ -776,6 +997,13 @@ def generate(prop: str, rng, tier: str, boost: int):
             yield _gen_producer(rng)
         else:
             yield _gen_stream(rng, prop)
+    # every serializer kind, streams known by construction (frame-by-frame decoding + remainders)
+    m = {"C02": 900, "C06": 700}.get(prop, 0) * (1 if tier == "quick" else 20) * boost
+    rng2 = core.sub_rng(rng.getrandbits(32), "anykind", prop)
+    for _ in range(m):
+        c = _gen_stream_any(rng2, prop)
+        if c is not None:
+            yield c
 
 
 # ------------------------------------------------------------------------------------------------
